@@ -189,10 +189,7 @@ def oracle(c, obs):
 
 
 def known_key(c, v, known):
-    for f in known:
-        if all(v.get(k) == val for k, val in f["match"].items()):
-            return f["key"]
-    return None
+    return common.known_key(c, v, known)
 
 
 def classify(c, obs):
